@@ -624,7 +624,7 @@ def judge(scn: Dict[str, Any], allowed: List[Dict[str, Any]], target: str, **kw)
 # ---------------------------------------------------------------------------------------------
 _CACHE: Dict[Any, Any] = {}
 INVS = ["TypeOK", "TicksExact", "OncePerPeriod", "NoCallAfterStop", "StopsOnRaise", "RefOK", "StateThreaded", "AtMostOncePerPeriod",
-        "NotBeforeGrid", "NoCallAfterDispose"]
+        "NotBeforeGrid", "NoCallAfterDispose", "NeverTwiceAtOnce", "LateFirstAtOnce"]
 
 
 def periodic_expected(period: int, n: int, *, t0: int = 0, dispose_at: Optional[int] = None, self_dispose_at: Optional[int] = None,
@@ -643,7 +643,7 @@ def periodic_expected(period: int, n: int, *, t0: int = 0, dispose_at: Optional[
     maxk = max(self_dispose_at or 1, raise_at or 1)
     key = (period, t0, horizon, tuple(durations), maxk)
     if key not in _CACHE:
-        consts = dict(Forms={"periodic"}, Periods={period}, Starts={t0}, Firsts={period}, Durs=set(durations), Over=set(), NoneAts={0}, Horizon=horizon, MaxK=maxk)
+        consts = dict(Forms={"periodic"}, Periods={period}, Starts={t0}, Firsts={period}, Durs=set(durations), Over=set(), NoneAts={0}, LateFirsts=set(), Horizon=horizon, MaxK=maxk)
         res = tlc.run("Periodic", tlc.cfg_text(consts, invariants=INVS + ["Export"]), workers=1, timeout=600, allow_violation=False)
         _CACHE[key] = res.lines
     if dispose_at is not None:
